@@ -105,6 +105,44 @@ def run(tier, t0):
     # C10.5 the end-of-input decision never uses a stale fully_consumed (boolean abstraction of both loops)
     from . import parseloop
     parseloop.check(res, prog, None, 'C10.5')
+    # C10.7 a record parser never looks past the end of its own line: what it consumes must not depend on what the
+    # window happens to hold after the line.  (a) my_eol is exactly `\r* \n`, once; (b) the parser module uses no nom
+    # combinator that repeats a sub-parser an input-dependent number of times other than separated_list1 (which runs
+    # inside one line), and none of nom's own line / whitespace-run parsers that cross newlines
+    res.rule('C10.7', 0, floor=3, note='line terminator matched exactly once per record; no repetition combinators over line ends in the record parsers')
+    eol = c.fn('breakpad_symbols::sym_file::parser::my_eol')
+    if eol is None:
+        res.error('C10.7', 'parser::my_eol not found')
+    else:
+        res.rule('C10.7', 1)
+        rets = []
+        for (_, _, t2) in ret_assigns(eol):
+            e = eol.expand(t2)
+            # the combinator value is dropped after the call, so it is not inlined: resolve its one definition by hand
+            if e[0] == 'call' and len(e) >= 3 and e[2][0] == 'var':
+                ds = [d for d in eol.defs.get(e[2][2], []) if d['kind'] == 'call']
+                if len(ds) == 1:
+                    e = (e[0], e[1], eol.expand(eol.call_tree(ds[0]['term']))) + tuple(e[3:])
+            rets.append(show(e))
+        want = '(nom::sequence::preceded::{closure#0} (nom::sequence::preceded (nom::bytes::complete::take_while (closure breakpad_symbols::sym_file::parser::my_eol::{closure#0})) (nom::bytes::complete::tag (const &[u8; 1]))) (tuple input))'
+        if rets != [want]:
+            res.violation('C10.7', 'C10.7|my_eol', eol, eol.line, 'my_eol is %s, not preceded(take_while(\\r), tag(\\n)) applied once: a terminator that can swallow further lines makes a record\'s extent depend on what else is in the buffer' % (rets[0][:200] if rets else 'not found'))
+        cl = c.fn('breakpad_symbols::sym_file::parser::my_eol::{closure#0}')
+        res.rule('C10.7', 1)
+        if cl is None or [show(cl.expand(t2)) for (_, _, t2) in ret_assigns(cl)] != ['(Eq b 13)']:
+            res.violation('C10.7', 'C10.7|my_eol|cr', cl or eol, (cl or eol).line, 'the byte skipped before the newline is not exactly \\r')
+    REPEAT = re.compile(r'^nom::(multi::(many0|many1|many0_count|many1_count|many_till|many_m_n|fold_many0|fold_many1|fold_many_m_n|count|fill|length_count|separated_list0)|character::complete::(multispace0|multispace1|line_ending|newline|crlf|not_line_ending)|bytes::complete::(take_until|take_until1|take_till|take_till1|is_not))\\b')
+    nrep = 0
+    for g in c.fns:
+        if 'sym_file::parser' not in g.qual:
+            continue
+        for b, t in g.calls():
+            n = g.callee(t) or ''
+            if n.startswith('nom::') and '{closure' not in n:
+                nrep += 1
+                if REPEAT.search(n):
+                    res.violation('C10.7', 'C10.7|repeat|%s|%s' % (g.qual.split('::')[-1], n.split('::')[-1]), g, t.get('line'), '%s in a record parser can consume a buffer-dependent number of lines / bytes across a line end' % n)
+    res.rule('C10.7', 1 if nrep else 0)
     # C10.2 parse_more consumes whole lines only
     res.rule('C10.2', 0, floor=2, note='parse_more returns 0 or the length of the input truncated after its last newline')
     pm = need_fn(res, c, 'breakpad_symbols::sym_file::parser::SymbolParser::parse_more', 'C10.2')
